@@ -577,7 +577,8 @@ func runErrClass(msg string) string {
 		has("error parsing regexp"), has("memory budget exceeded"), has("cannot fetch") && has("<nil>"):
 		return "value"
 	case has("invalid operation"), has("cannot fetch"), has("cannot use"), has("interface conversion"), has("reflect:"),
-		has("reflect.Value"), has("cannot get"), has("cannot slice"), has("invalid argument for len"), has("is not assignable"):
+		has("reflect.Value"), has("cannot get"), has("cannot slice"), has("invalid argument for len"), has("is not assignable"),
+		has("not defined on"):
 		return "type"
 	}
 	return "unknown"
@@ -796,7 +797,7 @@ func runC03(c *Ctx) {
 	for i := range reqs {
 		if reals[i].parsed {
 			tree, _ := parser.Parse(cases[i].src)
-			reqs[i] = L(A("c03-ref"), envSxCache[cases[i].env.Name], nodeSx(tree.Node, false)).String()
+			reqs[i] = L(A("c03-ref"), envSxCache[cases[i].env.Name], nodeSx(tree.Node, false), SBool(!cases[i].nonStrict)).String()
 		}
 	}
 	refs, err := c.AskAll(reqs)
@@ -811,6 +812,12 @@ func runC03(c *Ctx) {
 			continue
 		}
 		if cs.nonStrict {
+			// the reference rules with undefined variables allowed: well typed? statically typed?
+			cs.refWell = strings.HasPrefix(refs[i], "(well")
+			cs.static = strings.HasSuffix(refs[i], " true)")
+			if rsx, perr := ParseSx(refs[i]); perr == nil && rsx.Tag() == "ill" && len(rsx.List) > 1 {
+				cs.refClass = rsx.List[1].Atom
+			}
 			c03OracleNonStrict(c, cs)
 			continue
 		}
@@ -922,20 +929,36 @@ func c03OracleNonStrict(c *Ctx, cs c03Case) {
 	if et.Kind() != reflect.Map || et.Elem().Kind() == reflect.Interface {
 		return // every unknown name is interface{}-typed (and a struct cannot be asked for a missing field): no static claim
 	}
+	if !cs.refWell && !c03CallsNonBuiltin(cs.src) {
+		// accepted although the documented rules (with undefined variables allowed) give it no type: the same
+		// attribution as in strict mode
+		violateKeyed16(c, Violation{What: "an expression that the reference typing rules reject is accepted by Compile", Key: "c03:ill-typed-accepted:" + c03IllKey(cs.refClass), Input: in,
+			Expect: "Compile rejects", Got: "accepted"})
+		return
+	}
+	if !cs.static && !c03CallsNonBuiltin(cs.src) {
+		return // an interface-typed (or nil-typed) sub-expression: no static claim
+	}
 	tree, _ := parser.Parse(cs.src)
 	cfg := conf.New(cs.env.Val)
 	cfg.Strict = false
 	ty, terr := checker.Check(tree, cfg)
-	if terr != nil || ty == nil || ty.Kind() == reflect.Interface || strings.ContainsAny(cs.src, "({[.") && strings.Contains(cs.src, "nil") {
+	if terr != nil || ty == nil || ty.Kind() == reflect.Interface {
 		return
 	}
 	rv := compileRunOpts(cs.src, cs.env.Val, opts)
 	c.R.Count("nonstrict:typed-runs", 1)
 	if !rv.ran {
 		if runErrClass(rv.rerr) == "type" {
+			// attribute the failure to a listed finding before falling back to the generic key
 			key := "c03:non-strict-typed-map:type-error"
-			if strings.Contains(rv.rerr, "cannot get") || strings.Contains(rv.rerr, "reflect.Value.Call") || c03CallsNonBuiltin(cs.src) {
+			switch {
+			case strings.Contains(rv.rerr, "cannot get") || strings.Contains(rv.rerr, "reflect.Value.Call") || c03CallsNonBuiltin(cs.src):
 				key = "c03:non-strict:undefined-function-call" // a call of a name that is no function of the environment
+			case strings.Contains(cs.src, "[") && (strings.Contains(rv.rerr, "invalid operation: int(") || strings.Contains(rv.rerr, "MapIndex")):
+				key = "c03:ill-typed-accepted:bad-index" // IndexNode accepts any integer or string index whatever the container
+			case strings.Contains(rv.rerr, "reflect: Call using"):
+				key = "c03:ill-typed-accepted:retyped-non-literal-argument"
 			}
 			violateKeyed16(c, Violation{What: "a program accepted over a typed map environment with undefined variables allowed fails at run time for a type reason", Key: key, Input: in,
 				Expect: "success or a value-dependent failure (static type " + ty.String() + ")", Got: rv.rerr})
